@@ -309,7 +309,7 @@ func (m *Mon) stateC14(sc *StepCtx, s *Snap) {
 		dep := bi(coinsAmt(b.Deposit))
 		c := dep.Cmp(min)
 		which := "param"
-		if new(big.Int).Mul(op.Base, big.NewInt(s.Params.MinDepositMultiple)).Cmp(s.Params.MinDeposit.AmountOf(denom).BigInt()) > 0 {
+		if new(big.Int).Mul(op.Base, big.NewInt(s.Params.MinDepositMultiple)).Cmp(amountOfLinear(s.Params.MinDeposit, denom).BigInt()) > 0 {
 			which = "price"
 		}
 		m.hit("C14", "min-deposit", fmt.Sprintf("%s/cmp%d/%s", which, c, stepClass(sc)))
